@@ -1508,6 +1508,11 @@ class _Ctx:
         # library summary: random.Random.shuffle mutates its argument
         if tgt.kind == 'ext' and tgt.ext and tgt.ext.endswith('.shuffle') and args:
             self.store_event(st, e, e.args[0], args[0], 'shuffle', args=tuple(args), kw=kwt, rng=recv)
+        # library summary: bisect.insort* insert their second argument into their first
+        if tgt.kind == 'ext' and tgt.ext in ('bisect.insort', 'bisect.insort_right', 'bisect.insort_left') and len(args) >= 2:
+            self.store_event(st, e, e.args[0], args[0], tgt.ext.split('.')[1], args=tuple(args), kw=kwt, key=None, value=args[1])
+            self.bump(st, args[0])
+            st.known[AIn(args[1], self.versioned(st, args[0]))] = True
         # ---- package callees
         if tgt.kind == 'pkg' and tgt.funcs:
             callee = tgt.funcs[0]
